@@ -225,8 +225,10 @@ def r2_self_threading_agrees(ctx):
                     header_ok = True
         ctx.ob(f"{dg.key}:self-prefix", dg.loc(), f"the dependent dispatcher declares the self prefix and passes it in all {cnt} hand-overs", cnt >= 4 and not bad and header_ok, f"`{short(bad[0].arg, 60)}` does not pass the self prefix" if bad else "the dependent dispatcher's header or calls lost the self prefix")
 
+    from . import arganal
     from . import depgen as DG
 
+    arganal.law(ctx, "is-method", scenarios=["one-method", "required-everywhere", "keyword-required-everywhere"])
     DG.with_fallback(ctx, ("signature", "hand-over"), _dep_skel, configs=[c for c, v in DG.CONFIGS.items() if v["slf"]] + ["two-predicates", "keyed-below-threshold"])
     # the wrapper derives the prefix from the handler's first parameter
     multi = A.multimap(repo)
@@ -350,10 +352,22 @@ def r5_to_function_object(ctx):
         )
 
 
+def _more(name):
+    def run(ctx):
+        from . import more
+
+        getattr(more, name)(ctx)
+
+    run.__name__ = name
+    return run
+
+
 RULES = [
     ("C17.R5", "P1", r5_to_function_object, "conversion to a function object yields the function object"),
     ("C17.R4", "P1", r4_class_body_merge, "class-body definitions merge first; inherited names are collected"),
     ("C17.R1", "P1", r1_copy_before_mutate, "copy before mutate"),
     ("C17.R2", "P1", r2_self_threading_agrees, "self threading agrees"),
     ("C17.R3", "P1", r3_descriptor_delegates, "the descriptor delegates to the entry point"),
+    ("C17.R6", "P1", _more("definition_merge_overrides"), "later mixins override earlier ones"),
+    ("C17.R7", "P1", _more("conversion_leaves_argument_alone"), "conversion to a function object does not mark its argument"),
 ]
